@@ -46,6 +46,11 @@ impl<'a> ParseState<'a> {
             // This should be optimized out in most cases
             panic!("String length overrun in advance()")
         };
+        #[cfg(peginator_verif)]
+        assert!(
+            self.partial_string.is_char_boundary(length),
+            "peginator_verif: advance() would split a UTF-8 sequence"
+        );
         Self {
             start_index: self.start_index + length,
             // SAFETY:
